@@ -9,9 +9,10 @@ Transcribed: `LUTState.get_equivalent` / `put` / `find_best_address`, `get_lut_i
   `lut_index` of the activation of a pass's primary op) lives in `Env`, newest assignment first. The `equivalence_id` it
   writes is not modelled beyond its effect on `address` (next item).
 * `LUTState.tensors` is a Python list of tensor *objects*; the model keeps a copy of the address next to each entry (`Tab`).
-  That is the same thing as long as the pass never changes the address of an object that is in the list; it never does
-  (`Lemmas/LutState.lean`, `assign_keeps_state`: a table that is in the list is found by `get_equivalent`, as itself,
-  so it is never placed again and the address it is given is the one it has).
+  That is the same thing as long as the pass never changes the address of an object that is in the list; it never does:
+  for the code as it stands `Props/C03LutState.state_entries_never_reassigned` (a table that is in the list is found by
+  `get_equivalent`, as itself, so it is never placed again and the address it is given is the one it has), for the code
+  with repair C03-11 `sticky_addresses_never_change` (an object has one address for the whole stream).
   `Tensor.address` is stored per `(equivalence_id, mem_type)` in `TensorAddressMap`; the pass gives a placed table a fresh
   `uuid4` before it sets the address and gives a reused table the id of the table found, whose address it then "sets" to the
   value the map already holds — so per object the address changes exactly when the object is the `out_tensor` of the
